@@ -238,6 +238,13 @@ def build(case):
             m.aux_data["functionNames"].data[fu] = sym[s]
             m.aux_data["functionEntries"].data[fu] = {cb[s]}
             m.aux_data["functionBlocks"].data[fu] = {cb[s]}
+            if share:
+                # one symbol naming two functions (two UUIDs, e.g. a function split in two by an analysis)
+                fu2 = uuid.UUID(int=0xE0 + i)
+                names[fu2] = "func2:" + s
+                m.aux_data["functionNames"].data[fu2] = sym[s]
+                m.aux_data["functionEntries"].data[fu2] = set()
+                m.aux_data["functionBlocks"].data[fu2] = set()
 
     # symbolForwarding
     fwd = m.aux_data["symbolForwarding"].data
